@@ -135,7 +135,7 @@ PROPS = {
     "C11": entry(
         "Physical tuning and cache sharing never change logical results",
         [ia("filters", 600, 20000), ia("tables", 300, 10000), ib("all", 300, 10000, blob=2, ops=50), {"args": ["ib", "core", "--shared-cache", "--ops", "40"], "cases": {"quick": 40, "thorough": 1500}}],
-        "I-A: Bloom filters (bpk / fpr, k 1..34, adversarial hash values incl. wrap-around) and in-block hash indexes built by the real builders vs model (bits, probes, buckets, read plans); tables written with every combination of block size, restart interval, hash ratio, partitioned index / filter, bloom policy, pinning; I-B: histories under randomly drawn physical configurations (block size 1..4096, restart 1/2/16, hash ratio 0/0.75/8, partitioning, pinning, bloom none/bpk/fpr, cache 0 / 1 KiB / 8 MiB, descriptor table none/1/2/64) all compared with the same configuration-free model and ordered-map oracle; shared-cache groups: the same history on 3 trees with different physical configurations (one of them key-value-separated) that share ONE Cache (0 B .. 8 MiB) and ONE DescriptorTable (none / 1 / 3), alive at the same time with coinciding table ids, each validated against model and oracle",
+        "I-A: Bloom filters (bpk / fpr, k 1..34, adversarial hash values incl. wrap-around) and in-block hash indexes built by the real builders vs model (bits, probes, buckets, read plans); tables written with every combination of block size, restart interval, hash ratio, partitioned index / filter, bloom policy, pinning; I-B: histories under randomly drawn physical configurations (block size 1..4096, restart 1/2/16, hash ratio 0/0.75/8, partitioning, pinning, bloom none/bpk/fpr, expect_point_read_hits on/off, compression none / lz4 data blocks / lz4 data + index blocks (and lz4 blobs), cache 0 / 1 KiB / 8 MiB, descriptor table none/1/2/64) all compared with the same configuration-free model and ordered-map oracle; shared-cache groups: the same history on 3 trees with different physical configurations (one of them key-value-separated) that share ONE Cache (0 B .. 8 MiB) and ONE DescriptorTable (none / 1 / 3), alive at the same time with coinciding table ids, each validated against model and oracle",
         TECH,
         "c11_bloom_no_false_negative (every m > 0, k, all 64-bit hashes incl. wrap-around; builder and reader loops proved to probe the same positions), c11_hash_index_sound / _notFound_absent / _found_unique, c11_point_read_absent_sound, c11_cache_key_injective; the logical model has no physical parameters, so agreement of every configuration with it is agreement between configurations.",
         "quick_cache itself and the f32 bucket / bit-count arithmetic are not modelled (taken from the run); cache key injectivity is proved; cache sharing between live trees is additionally exercised by the shared-cache groups",
@@ -167,7 +167,7 @@ PROPS = {
     "C08": entry(
         "Key-value separation is invisible to the user",
         [ib("all", 400, 15000, blob=1, ops=60), ib("reloc", 1500, 40000, blob=1, ops=70), ib("snap", 300, 10000, blob=1, ops=60), ib("filter", 200, 8000, blob=1, ops=60), ib("ingest", 300, 10000, blob=1, ops=60)],
-        "I-B on key-value-separated trees (threshold 0/1/8/12/1000, blob file target 1 B .. 1 KiB, staleness 0.3, age cutoff 1.0): the same configuration-free model and ordered-map oracle as for standard trees; every stored pointer of every table of the current version AND of every version a held snapshot resolves to is decoded and resolved against that version's blob files and must yield the bytes written for that key and version; `reloc` profile: few keys, several live versions, ingestions (blobs stored with the local seqno 0) over flushed keys, blob files made partly stale by drop_range, relocating major compactions; non-trivial = >= 1 compaction and >= 2 flushes",
+        "I-B on key-value-separated trees (threshold 0/1/8/12/1000, blob file target 1 B .. 4 KiB, blob compression none / lz4, staleness 0.3, age cutoff 1.0): the same configuration-free model and ordered-map oracle as for standard trees; every stored pointer of every table of the current version AND of every version a held snapshot resolves to is decoded and resolved against that version's blob files and must yield the bytes written for that key and version; `reloc` profile: few keys, several live versions, ingestions (blobs stored with the local seqno 0) over flushed keys, blob files made partly stale by drop_range, relocating major compactions; non-trivial = >= 1 compaction and >= 2 flushes",
         TECH,
         "c08_separation_invisible: for every op list (entries value / tombstone, no compaction filter) the run of a key-value-separated tree equals the run of a standard tree up to erasing the indirection tag — same accepted decisions, same point reads, same scans (c08_point_reads, c08_scans); c08_gc_stream_commutes. C08r (relocation matching = drain_blobs + one scanner per rewritten blob file): c08r_fixed_matches_all — for ANY stored seqnos and any interleaving of pointers to different files, every pointer finds exactly its blob provided each file's pointers follow that file's order; c08r_fixed_never_wrong_blob — a success never copies another blob; c08r_legacy_counterexample — the merged scanner of the code before fix 4fe854b fails on finding F9's instance; c08r_legacy_ok_when_orders_agree.",
         "with weak tombstones or compaction filters the simulation is validated by correspondence only (a weak tombstone does not annihilate with an indirection: space, not reads); pointer arithmetic (offsets, blob file bytes) is checked by resolution on the real files, not modelled; the relocation matching model (C08r) is tied to the code at tree level only (every pointer resolved after every real relocation; the F9 histories in corpus/C08), there is no function-level differential for drain_blobs",
